@@ -25,7 +25,7 @@ def build(rng, site, nm, strict):
     binds = set()
     cand = {"body": ["context", "page", "assign", "loop", "module", "import"], "control": ["context", "page", "assign", "loop", "module", "import"],
             "attr": ["context", "page", "assign", "module", "import"], "anon": ["context", "page", "assign", "module", "import"],
-            "callbody": ["context", "page", "assign", "module", "import"], "topdef": ["context", "page", "assign", "arg", "module", "loop"],
+            "callbody": ["context", "page", "assign", "module", "import"], "topdef": ["context", "page", "assign", "arg", "module", "loop"], "topdef-in-callbody": ["context", "page", "assign", "arg", "module"],
             "nested": ["context", "arg", "encl", "oarg", "module"], "filter": ["context", "module"]}[site]
     for b in cand:
         if rng.random() < 0.45:
@@ -40,6 +40,8 @@ def build(rng, site, nm, strict):
         context.append("ctx")
     if "module" in binds:
         head.append("<%%! %s = 'mod' %%>" % nm)
+        if rng.random() < 0.5:
+            head.append("<%! another_module_block = 1 %>")          # a second module-level block must not hide the first
         module.append("mod")
     if "import" in binds:
         head.append('<%%namespace name="ns" file="/ns.html" import="%s"/>' % nm)
@@ -62,7 +64,7 @@ def build(rng, site, nm, strict):
         else:
             read = inner
         head.append('<%def name="wrap()">${caller.body()}</%def><%def name="echo(v)">${v}</%def>')
-    elif site == "topdef":
+    elif site in ("topdef", "topdef-in-callbody"):
         arg = "arg" in binds
         head.append('<%%def name="d(%s)">%s</%%def>' % (nm if arg else "", R))
         if arg:
@@ -75,6 +77,10 @@ def build(rng, site, nm, strict):
             extra.append("page")
         context = extra + context            # __M_locals: what the body assigned, then its page arguments, over the context
         call = "${d(%s)}" % ("'arg'" if arg else "")
+        if site == "topdef-in-callbody":
+            # the def is called only from the content of a call tag written in the body
+            head.append('<%def name="wrap()">${caller.body()}</%def>')
+            call = '<%%call expr="wrap()">%s</%%call>' % call
         if "loop" in binds:
             # a loop target of the body is a plain local of the body: the def does not see it ... but the loop rebinds the
             # body's variable, and a later code block would publish it; here there is none
@@ -115,7 +121,7 @@ def run(ctx):
     from mako.template import Template
     disagreements = []
     req, got = [], []
-    SITES = ["body", "control", "attr", "anon", "callbody", "topdef", "nested", "filter"]
+    SITES = ["body", "control", "attr", "anon", "callbody", "topdef", "topdef-in-callbody", "nested", "filter"]
     per_cell = 12 if tier == "quick" else 300
     cells = 0
     for site in SITES:
